@@ -11,7 +11,7 @@ EXPLANATION = ('Producers (real source): every array handed to the compression q
 ASSUMPTIONS = [
     'AX-ZFP-ENC: compress_numpy(A, rate, write_header=False) = concatenation over the cells of A in C order of ENC_r(cell), ub bytes each (probed)',
     'AX-NP-INDEX incl. np.pad(...,"edge"); Python for-loops over range iterate in order (rank of an event = mixed-radix number of its loop indices)',
-    'routes under contract: NumPy (numpy_producer), regular SEG-Y (seismic_file_producer + io_thread_func per inline block extent 4/8[/16], MinimalInlineReader.read_line against AX-SEGY-LAYOUT); AX-SEGYIO-R handle model; pyzgy/pyvds handles assumed to satisfy the same interface; CLI not under contract',
+    'routes under contract: NumPy (numpy_producer), regular SEG-Y (seismic_file_producer + io_thread_func for every inline block extent (symbolic extent; unrolled 4/8[/16] as cross-check), MinimalInlineReader.read_line against AX-SEGY-LAYOUT); AX-SEGYIO-R handle model; pyzgy/pyvds handles assumed to satisfy the same interface; CLI not under contract',
 ]
 TRUSTED = []
 
